@@ -1,6 +1,7 @@
 package corpus
 
 import (
+	"os"
 	"fmt"
 	"strings"
 
@@ -316,5 +317,15 @@ func CheckedInTest3() Set {
 
 // All sets whose generated packages are linked into the runner (when they generate and compile).
 func Linked() []Set {
-	return []Set{Matrix(), OneofSint(), Wkt(), CheckedInTestpb(), CheckedInTest3()}
+	sets := []Set{Matrix(), OneofSint(), Wkt(), CheckedInTestpb(), CheckedInTest3()}
+	// + random schema sets of the run's seed (VERIF_LINKED_RANDOM = "<seed>:<count>"), so that the codec, decode and
+	// reflection engines also run on schemas nobody wrote by hand
+	var seed uint64
+	var n int
+	if _, err := fmt.Sscanf(os.Getenv("VERIF_LINKED_RANDOM"), "%d:%d", &seed, &n); err == nil {
+		for i := 0; i < n; i++ {
+			sets = append(sets, RandomSet(seed, i, "vr", GenBase, true))
+		}
+	}
+	return sets
 }
